@@ -32,7 +32,7 @@ class Prop:
             for _ in range(rng.choice([1, 1, 2])):
                 faults.append({"site": rng.choice(sites), "k": rng.randrange(0, 4)})
         sc["faults"] = faults
-        if faults and rng.random() < 0.3:
+        if rng.random() < 0.3:
             sc["exc"] = rng.choice(["stop_iteration", "key_error", "value_error", "type_error", "attribute_error", "index_error", "runtime_error"])
         if rng.random() < (0.5 if depth == 0 else 0.2) and not expanding:  # a raising subscriber keeps take() from ending an expansion
             sc["sub_raise"] = rng.randrange(0, 4)
@@ -62,6 +62,8 @@ class Prop:
             out.faults["dispose"] += 1
         if len(list(rec.all_recorders())) > 1:
             out.probes["inner_recorders"] += 1
+        if sc.get("as_observer"):
+            out.probes["subscribed_as_observer_object"] += 1
         if run.build_error is not None:
             out.probes["build_error"] += 1
         out.info = {"ops": ops, "root": rec.kinds()}
